@@ -65,6 +65,9 @@ G_C01_SilentAfterEnd(c, ph, nd, p, o) == ph = "ended" => o = Nothing
 \* C01: data and keep-alive before the channel exists end the tunnel or are dropped, never answered
 G_C01_NoReplyToData(c, ph, nd, p, o) == p.k \in {"data", "keepalive", "other"} => o.resp = "none"
 
+\* C01: a channel request for a host that policy rejects is not a completed channel creation: no connection, no success
+G_C01_RejectedHostNoConnection(c, ph, nd, p, o) == (p.k = "chan" /\ p.hostAllowed = "no") => (~o.dial /\ o.resp # "ok")
+
 \* C17: handshake succeeds iff capabilities match; failure is CAPABILITYMISMATCH and ends
 G_C17_MatchIff(c, ph, nd, p, o) ==
   (p.k = "hs" /\ ph = "init" /\ Valid(p)) =>
@@ -132,7 +135,7 @@ GuardNames == {"G_C01_SuccessInOrder", "G_C01_DialGate", "G_C01_FwdGate", "G_C01
   "G_C01_ErrorEnds", "G_C01_SilentAfterEnd", "G_C01_NoReplyToData", "G_C17_MatchIff", "G_C02_CookieIff",
   "G_C16_CreateAccepted", "G_C16_AuthAccepted", "G_C03_DialIffAllowed", "G_C03_MalformedNotDialled",
   "G_C16_ChannelTruth", "G_C06_DataForwarded", "G_C06_KeepaliveHarmless", "G_C11_CloseAnswered",
-  "G_C16_CodesTruthful", "G_C16_AcceptedStepContinues", "G_C16_PinnedCodes"}
+  "G_C16_CodesTruthful", "G_C16_AcceptedStepContinues", "G_C16_PinnedCodes", "G_C01_RejectedHostNoConnection"}
 
 \* Off: guards switched off (used only by the guard-necessity self-test)
 CONSTANT Off
@@ -159,6 +162,7 @@ Holds(g, c, ph, nd, p, o) ==
        [] g = "G_C16_CodesTruthful"       -> G_C16_CodesTruthful(c, ph, nd, p, o)
        [] g = "G_C16_AcceptedStepContinues" -> G_C16_AcceptedStepContinues(c, ph, nd, p, o)
        [] g = "G_C16_PinnedCodes"         -> G_C16_PinnedCodes(c, ph, nd, p, o)
+       [] g = "G_C01_RejectedHostNoConnection" -> G_C01_RejectedHostNoConnection(c, ph, nd, p, o)
 
 Violated(c, ph, nd, p, o) == {g \in GuardNames : ~Holds(g, c, ph, nd, p, o)}
 Reactions(c, ph, nd, p)   == {o \in Outcomes : \A g \in GuardNames : Holds(g, c, ph, nd, p, o)}
